@@ -273,9 +273,40 @@ def short(k):
 
 
 def failure_side(body, e):
-    """Blocks only reachable through the Err arm of the switch on this CAS's result (best effort)."""
+    """Blocks only reachable through the Err arm of the switch on this CAS's result (best effort): a `match` on the
+    Result's discriminant, or a branch on `.is_ok()` / `.is_err()` of it (possibly through a named boolean)."""
     out = set()
     dl = e["dest"]
+    # boolean form
+    for bb, t in body.calls():
+        m = t["callee"].get("method")
+        if m in ("is_ok", "is_err") and t["args"]:
+            src = Slice(body, through_calls=False).run(t["args"][0])
+            if dl not in src["locals"]:
+                continue
+            for blk in body.blocks:
+                tt = blk.term
+                if tt["k"] != "switch":
+                    continue
+                gl = op_local(tt["discr"])
+                hops = 0
+                while gl is not None and hops < 4 and gl != t["dest"]["l"]:
+                    d0 = body.unique_def(gl)
+                    if d0 and d0[2] == "assign" and d0[3]["rv"]["k"] == "use" and op_local(d0[3]["rv"]["op"]) is not None:
+                        gl = op_local(d0[3]["rv"]["op"])
+                        hops += 1
+                    else:
+                        break
+                if gl != t["dest"]["l"]:
+                    continue
+                zero = [tg for v, tg in tt["arms"] if v == 0]
+                other = tt["otherwise"]
+                # is_ok: false (0) = failure; is_err: true (otherwise) = failure
+                fail_t, ok_t = (zero, [other]) if m == "is_ok" else ([other], zero)
+                if fail_t:
+                    out |= body.reachable(fail_t, unwind=False, avoid=ok_t)
+    if out:
+        return out
     for b in body.blocks:
         t = b.term
         if t["k"] == "switch":
